@@ -6,6 +6,9 @@
 //! of `diff` / `generate_requests` as sorted multisets) are the same for all three.
 #[path = "../state_codec.rs"]
 mod codec;
+#[path = "../state_gen.rs"]
+mod gen;
+use gen::*;
 
 use std::collections::{BTreeMap, BTreeSet};
 use std::io::{Read, Seek, SeekFrom};
@@ -507,350 +510,6 @@ fn c05_oracle(r: &mut ImplRun, cur: &ConfigState, use_files: bool) -> (Vec<Reque
     (reqs, s, rej.is_empty())
 }
 
-// -------------------------------------------------------------- generator --
-
-const KN: &str = "-,-,-,-,-,-,-,-,-,-,-,-,-,-,-,-,-,-";
-
-struct Shadow {
-    addrs: Vec<u64>,
-    listeners: [BTreeSet<u64>; 4],
-    clusters: BTreeSet<u64>,
-    backends: BTreeSet<(u64, u64, u64)>,
-    certs: BTreeSet<(u64, u64)>,
-    fronts: Vec<String>,
-    tfs: BTreeSet<(bool, u64, u64, u64)>,
-}
-
-fn knob_min(i: usize) -> u64 {
-    if i == 6 || i == 15 || i == 16 { 0 } else if i == 8 { 2 } else { 1 }
-}
-
-fn g_opt(rng: &mut Rng, p: u64, f: impl FnOnce(&mut Rng) -> String) -> String {
-    if rng.chance(p, 100) { f(rng) } else { "-".into() }
-}
-fn g_addr(rng: &mut Rng, sh: &Shadow) -> u64 {
-    let a = *rng.pick(&sh.addrs);
-    if rng.chance(1, 12) { a + 16 } else { a }
-}
-fn g_answers(rng: &mut Rng) -> String {
-    if rng.chance(3, 4) {
-        return "-".into();
-    }
-    (0..12).map(|_| if rng.chance(1, 4) { rng.below(3).to_string() } else { "-".into() }).collect::<Vec<_>>().join(",")
-}
-fn g_knobs(rng: &mut Rng, dens: u64, bad_at: Option<usize>) -> String {
-    (0..NKNOBS)
-        .map(|i| {
-            if bad_at == Some(i) {
-                (knob_min(i) - 1).to_string()
-            } else if rng.chance(dens, 100) {
-                (knob_min(i) + rng.below(3) * 7).to_string()
-            } else {
-                "-".into()
-            }
-        })
-        .collect::<Vec<_>>()
-        .join(",")
-}
-const GOOD_SID: [&str; 3] = ["Sozu-Id", "x", "X-Req.1~"];
-const BAD_SID: [&str; 5] = ["", "a:b", "a b", "h\u{e9}", "a\r\n"];
-fn sidw(s: &str) -> String {
-    format!("x{}", verif_hex(s.as_bytes()))
-}
-
-fn g_httpl(rng: &mut Rng, sh: &Shadow, https: bool) -> String {
-    let a = g_addr(rng, sh);
-    let alpn = if https && rng.chance(1, 3) { ["0", "1", "0,1", "1,0"][rng.below(4) as usize].to_string() } else { "-".into() };
-    format!(
-        "{} {} {} {} {} {} {} {} {} {} {} {} {} {} {} {} {}",
-        if https { "addhttpsl" } else { "addhttpl" },
-        a,
-        g_opt(rng, 20, |r| r.below(20).to_string()),
-        rng.below(2),
-        rng.below(3),
-        *rng.pick(&[60u64, 5, 0]),
-        *rng.pick(&[30u64, 7]),
-        *rng.pick(&[3u64, 4, 1]),
-        *rng.pick(&[10u64, 12, 2]),
-        rng.below(2),
-        g_answers(rng),
-        alpn,
-        if https { g_opt(rng, 20, |r| r.below(2).to_string()) } else { "-".into() },
-        if https { g_opt(rng, 20, |r| r.below(2).to_string()) } else { "-".into() },
-        if rng.chance(1, 3) { g_knobs(rng, 20, None) } else { KN.to_string() },
-        g_opt(rng, 15, |r| sidw(*r.pick(&GOOD_SID[..]))),
-        rng.below(4)
-    )
-}
-
-/// listener patch; `bad`: 0 none, 1 knob below minimum, 2 alpn unknown (https), 3 sozu_id_header invalid
-fn g_patch(rng: &mut Rng, a: u64, https: bool, bad: u64) -> String {
-    let dens = *rng.pick(&[0u64, 30, 60, 100]);
-    let bad_knob = if bad == 1 {
-        let cands: Vec<usize> = (0..NKNOBS).filter(|i| knob_min(*i) > 0).collect();
-        Some(*rng.pick(&cands))
-    } else {
-        None
-    };
-    let mut w = vec![
-        (if https { "updhttpsl" } else { "updhttpl" }).to_string(),
-        a.to_string(),
-        g_opt(rng, dens / 2, |r| r.below(20).to_string()),
-        g_opt(rng, dens, |r| r.below(2).to_string()),
-        g_opt(rng, dens, |r| r.below(3).to_string()),
-        g_opt(rng, dens, |r| r.pick(&[5u64, 61, 0]).to_string()),
-        g_opt(rng, dens, |r| r.pick(&[31u64, 8]).to_string()),
-        g_opt(rng, dens, |r| r.pick(&[4u64, 9]).to_string()),
-        g_opt(rng, dens, |r| r.pick(&[11u64, 2]).to_string()),
-        if rng.chance(dens, 200) { (0..12).map(|_| if rng.chance(1, 3) { rng.below(3).to_string() } else { "-".into() }).collect::<Vec<_>>().join(",") } else { "-".into() },
-    ];
-    if https {
-        w.push(if bad == 2 {
-            ["5", "0,5", "5,1", "1,0,7"][rng.below(4) as usize].to_string()
-        } else if rng.chance(dens, 150) {
-            ["e", "0", "1", "0,1"][rng.below(4) as usize].to_string()
-        } else {
-            "-".into()
-        });
-        w.push(g_opt(rng, dens, |r| r.below(2).to_string()));
-        w.push(g_opt(rng, dens, |r| r.below(2).to_string()));
-    }
-    w.push(g_knobs(rng, dens / 2, bad_knob));
-    w.push(if bad == 3 { sidw(*rng.pick(&BAD_SID[..])) } else { g_opt(rng, dens / 2, |r| sidw(*r.pick(&GOOD_SID[..]))) });
-    w.push(if rng.chance(1, 5) { (1 + rng.below(3)).to_string() } else { "0".into() });
-    w.join(" ")
-}
-
-fn g_front(rng: &mut Rng, sh: &Shadow) -> String {
-    format!(
-        "{} {} {} {} {} {} {} {} {}",
-        g_opt(rng, 80, |r| r.below(4).to_string()),
-        g_addr(rng, sh),
-        rng.below(4),
-        if rng.chance(1, 25) { 7 } else { rng.below(3) },
-        rng.below(5),
-        g_opt(rng, 45, |r| r.below(6).to_string()),
-        if rng.chance(1, 25) { 9 } else { rng.below(3) },
-        rng.below(4),
-        rng.below(4)
-    )
-}
-
-fn g_cert(rng: &mut Rng) -> String {
-    let pem = if rng.chance(1, 6) { 10 + rng.below(3) } else if rng.chance(1, 8) { 13 } else { rng.below(10) };
-    let names = if rng.chance(1, 3) { dotted(&(0..1 + rng.below(2)).map(|_| rng.below(3)).collect::<Vec<_>>()) } else { "-".into() };
-    let rest = rng.below(4);
-    let p = pems();
-    let c = p.cert(pem, &parse_dotted(&names).unwrap(), rest);
-    p.cert_words(&c).join(" ")
-}
-
-impl StateArea {
-    /// one command line; `invalid_bias` in percent
-    fn g_cmd(&self, rng: &mut Rng, sh: &mut Shadow, bias: u64) -> String {
-        let bad = rng.chance(bias, 100);
-        let k = rng.below(100);
-        let pick_l = |rng: &mut Rng, sh: &Shadow, t: usize| -> Option<u64> {
-            let v: Vec<u64> = sh.listeners[t].iter().cloned().collect();
-            if v.is_empty() { None } else { Some(*rng.pick(&v)) }
-        };
-        if k < 8 {
-            let id = rng.below(5);
-            let h = if bad { format!("i{}", rng.below(4)) } else { g_opt(rng, 30, |r| format!("v{}", r.below(3))) };
-            if !bad { sh.clusters.insert(id); }
-            format!("addcluster {id} {h} {}", rng.below(5))
-        } else if k < 11 {
-            let id = rng.below(5);
-            sh.clusters.remove(&id);
-            format!("rmcluster {id}")
-        } else if k < 15 {
-            format!("sethc {} {}", rng.below(5), if bad { format!("i{}", rng.below(4)) } else { format!("v{}", rng.below(3)) })
-        } else if k < 17 {
-            format!("rmhc {}", rng.below(5))
-        } else if k < 23 {
-            let https = rng.chance(1, 2);
-            let l = g_httpl(rng, sh, https);
-            let a: u64 = l.split(' ').nth(1).unwrap().parse().unwrap();
-            sh.listeners[https as usize].insert(a % 16);
-            l
-        } else if k < 26 {
-            let a = g_addr(rng, sh);
-            sh.listeners[2].insert(a % 16);
-            format!("addtcpl {a} {} {} {} {} {} {}", g_opt(rng, 20, |r| r.below(20).to_string()), rng.below(2),
-                    *rng.pick(&[60u64, 5]), *rng.pick(&[30u64, 7]), *rng.pick(&[3u64, 1]), rng.below(2))
-        } else if k < 29 {
-            let a = g_addr(rng, sh);
-            sh.listeners[3].insert(a % 16);
-            format!("addudpl {a} {} {} {} {} {} {}", g_opt(rng, 20, |r| r.below(20).to_string()), *rng.pick(&[30u64, 5]),
-                    *rng.pick(&[30u64, 9]), *rng.pick(&[1500u64, 512, 9000]), rng.below(3), rng.below(2))
-        } else if k < 33 {
-            let t = if bad { 9 } else { rng.below(4) };
-            let a = g_addr(rng, sh);
-            if t < 4 { sh.listeners[t as usize].remove(&(a % 16)); }
-            format!("rmlistener {t} {a}")
-        } else if k < 38 {
-            let t = if bad && rng.chance(1, 2) { 9 } else { rng.below(4) };
-            format!("{} {t} {}", if rng.chance(2, 3) { "activate" } else { "deactivate" }, g_addr(rng, sh))
-        } else if k < 46 {
-            let https = rng.chance(1, 2);
-            let f = g_front(rng, sh);
-            sh.fronts.push(format!("{} {f}", https as u8));
-            format!("{} {f}", if https { "addhttpsf" } else { "addhttpf" })
-        } else if k < 50 {
-            if !sh.fronts.is_empty() && rng.chance(4, 5) {
-                let i = rng.below(sh.fronts.len() as u64) as usize;
-                let f = sh.fronts.remove(i);
-                let (h, f) = f.split_once(' ').unwrap();
-                format!("{} {f}", if h == "1" { "rmhttpsf" } else { "rmhttpf" })
-            } else {
-                format!("{} {}", if rng.chance(1, 2) { "rmhttpsf" } else { "rmhttpf" }, g_front(rng, sh))
-            }
-        } else if k < 57 {
-            let a = g_addr(rng, sh);
-            let c = g_cert(rng);
-            let w: Vec<&str> = c.split(' ').collect();
-            if w[3] != "x" && w[4] != "!" {
-                sh.certs.insert((a % 16, w[3].parse().unwrap()));
-            }
-            format!("addcert {a} {c}")
-        } else if k < 60 {
-            let v: Vec<(u64, u64)> = sh.certs.iter().cloned().collect();
-            if bad { format!("rmcert {} x", g_addr(rng, sh)) }
-            else if !v.is_empty() && rng.chance(3, 4) { let (a, f) = *rng.pick(&v); sh.certs.remove(&(a, f)); format!("rmcert {a} {f}") }
-            else { format!("rmcert {} {}", g_addr(rng, sh), *rng.pick(&[0u64, 2, 900])) }
-        } else if k < 65 {
-            let v: Vec<(u64, u64)> = sh.certs.iter().cloned().collect();
-            let (a, old) = if !v.is_empty() && rng.chance(4, 5) { *rng.pick(&v) } else { (g_addr(rng, sh), *rng.pick(&[0u64, 1, 900])) };
-            let oldw = if bad && rng.chance(1, 3) { "x".to_string() } else { old.to_string() };
-            let c = if bad { let p = pems(); p.cert_words(&p.cert(11 + rng.below(2), &[], 0)).join(" ") } else { g_cert(rng) };
-            format!("replcert {a} {oldw} {c}")
-        } else if k < 70 {
-            let udp = rng.chance(1, 3);
-            let (c, a, t) = (rng.below(4), g_addr(rng, sh), rng.below(4));
-            sh.tfs.insert((udp, c, a % 16, t));
-            format!("{} {c} {a} {t}", if udp { "addudpf" } else { "addtcpf" })
-        } else if k < 73 {
-            let v: Vec<_> = sh.tfs.iter().cloned().collect();
-            if !v.is_empty() && rng.chance(3, 4) {
-                let (u, c, a, t) = *rng.pick(&v);
-                sh.tfs.retain(|x| !(x.0 == u && x.1 == c && x.2 == a));
-                format!("{} {c} {a} {t}", if u { "rmudpf" } else { "rmtcpf" })
-            } else {
-                format!("{} {} {} 0", if rng.chance(1, 2) { "rmudpf" } else { "rmtcpf" }, rng.below(3), g_addr(rng, sh))
-            }
-        } else if k < 81 {
-            let (c, b, a) = (rng.below(4), rng.below(4), g_addr(rng, sh));
-            sh.backends.insert((c, b, a % 16));
-            format!(
-                "addbackend {c} {b} {a} {} {} {}",
-                g_opt(rng, 30, |r| r.below(3).to_string()),
-                if rng.chance(1, 3) { format!("w{}", *rng.pick(&[0i64, 5, 100, -3])) } else { "-".into() },
-                g_opt(rng, 30, |r| r.below(2).to_string())
-            )
-        } else if k < 85 {
-            let v: Vec<_> = sh.backends.iter().cloned().collect();
-            if !v.is_empty() && rng.chance(3, 4) {
-                let x = *rng.pick(&v);
-                sh.backends.remove(&x);
-                format!("rmbackend {} {} {}", x.0, x.1, x.2)
-            } else {
-                format!("rmbackend {} {} {}", rng.below(4), rng.below(4), g_addr(rng, sh))
-            }
-        } else if k < 93 {
-            let https = rng.chance(3, 5);
-            let a = match pick_l(rng, sh, https as usize) {
-                Some(a) if rng.chance(9, 10) => a + if rng.chance(1, 12) { 16 } else { 0 },
-                _ => g_addr(rng, sh),
-            };
-            let kind = if bad { if https { 1 + rng.below(3) } else { *rng.pick(&[1u64, 3]) } } else { 0 };
-            g_patch(rng, a, https, kind)
-        } else if k < 96 {
-            let a = match pick_l(rng, sh, 2) { Some(a) if rng.chance(4, 5) => a, _ => g_addr(rng, sh) };
-            format!("updtcpl {a} {} {} {} {} {}", g_opt(rng, 30, |r| r.below(20).to_string()), g_opt(rng, 40, |r| r.below(2).to_string()),
-                    g_opt(rng, 40, |r| r.pick(&[61u64, 6, 0]).to_string()), g_opt(rng, 40, |r| r.pick(&[31u64, 8]).to_string()),
-                    g_opt(rng, 40, |r| r.pick(&[4u64, 2]).to_string()))
-        } else if k < 98 {
-            let a = match pick_l(rng, sh, 3) { Some(a) if rng.chance(4, 5) => a, _ => g_addr(rng, sh) };
-            format!("updudpl {a} {} {} {} {} {}", g_opt(rng, 30, |r| r.below(20).to_string()), g_opt(rng, 40, |r| r.pick(&[31u64, 6]).to_string()),
-                    g_opt(rng, 40, |r| r.pick(&[32u64, 7]).to_string()), g_opt(rng, 40, |r| r.pick(&[9000u64, 576]).to_string()),
-                    g_opt(rng, 40, |r| r.below(5).to_string()))
-        } else if k < 99 {
-            format!("other {}", rng.below(2))
-        } else {
-            "empty".into()
-        }
-    }
-
-    fn new_shadow(rng: &mut Rng) -> Shadow {
-        let mut addrs: Vec<u64> = (0..16).collect();
-        rng.shuffle(&mut addrs);
-        addrs.truncate(3 + rng.below(2) as usize);
-        Shadow { addrs, listeners: Default::default(), clusters: Default::default(), backends: Default::default(),
-                 certs: Default::default(), fronts: vec![], tfs: Default::default() }
-    }
-
-    /// a small adversarial mutation of the current state (C06)
-    fn g_mutation(&self, rng: &mut Rng, sh: &mut Shadow) -> Vec<String> {
-        // a frontend that differs only in tags / cluster / policies (same route key)
-        if !sh.fronts.is_empty() && rng.chance(1, 4) {
-            let i = rng.below(sh.fronts.len() as u64) as usize;
-            let old = sh.fronts[i].clone();
-            let (h, f) = old.split_once(' ').unwrap();
-            let mut w: Vec<String> = f.split(' ').map(|x| x.to_string()).collect();
-            match rng.below(3) {
-                0 => w[7] = ((w[7].parse::<u64>().unwrap_or(0) + 1) % 3).to_string(),
-                1 => w[8] = ((w[8].parse::<u64>().unwrap_or(0) + 1) % 3).to_string(),
-                _ => w[0] = if w[0] == "-" { "1".into() } else { "-".into() },
-            }
-            let newf = w.join(" ");
-            sh.fronts[i] = format!("{h} {newf}");
-            let (rm, add) = if h == "1" { ("rmhttpsf", "addhttpsf") } else { ("rmhttpf", "addhttpf") };
-            return vec![format!("{rm} {f}"), format!("{add} {newf}")];
-        }
-        vec![self.g_mutation1(rng, sh)]
-    }
-
-    fn g_mutation1(&self, rng: &mut Rng, sh: &mut Shadow) -> String {
-        let bs: Vec<_> = sh.backends.iter().cloned().collect();
-        let k = rng.below(10);
-        if k < 3 && !bs.is_empty() {
-            // same backend id at another address / changed parameters
-            let (c, b, a) = *rng.pick(&bs);
-            let a2 = if rng.chance(2, 3) { *rng.pick(&sh.addrs) } else { a };
-            sh.backends.insert((c, b, a2));
-            return format!("addbackend {c} {b} {a2} - {} -", if rng.chance(1, 2) { "w9" } else { "-" });
-        }
-        if k < 5 {
-            let v: Vec<_> = sh.tfs.iter().cloned().collect();
-            if !v.is_empty() {
-                let (u, c, a, t) = *rng.pick(&v);
-                let t2 = (t + 1) % 3;
-                sh.tfs.insert((u, c, a, t2));
-                return format!("{} {c} {a} {t2}", if u { "addudpf" } else { "addtcpf" });
-            }
-        }
-        if k < 7 {
-            for t in 0..4usize {
-                let v: Vec<u64> = sh.listeners[t].iter().cloned().collect();
-                if !v.is_empty() && rng.chance(1, 2) {
-                    let a = *rng.pick(&v);
-                    return match rng.below(3) {
-                        0 => format!("activate {t} {a}"),
-                        1 => format!("deactivate {t} {a}"),
-                        _ => match t {
-                            0 => g_patch(rng, a, false, 0),
-                            1 => g_patch(rng, a, true, 0),
-                            2 => format!("updtcpl {a} - - 99 - -"),
-                            _ => format!("updudpl {a} - 99 - - -"),
-                        },
-                    };
-                }
-            }
-        }
-        self.g_cmd(rng, sh, 5)
-    }
-}
-
 // ------------------------------------------------------------------- area --
 
 impl Area for StateArea {
@@ -922,7 +581,7 @@ impl Area for StateArea {
         ]
     }
     fn gen(&self, rng: &mut Rng, thorough: bool) -> Vec<String> {
-        let mut sh = Self::new_shadow(rng);
+        let mut sh = new_shadow(rng);
         let mut ops = vec!["new".to_string()];
         // most cases start with a few listeners, so that patches / activations / diffs have targets
         if rng.chance(3, 4) {
@@ -947,7 +606,7 @@ impl Area for StateArea {
             "C07" => {
                 let n = rng.range(4, maxlen);
                 for _ in 0..n {
-                    ops.push(self.g_cmd(rng, &mut sh, 35));
+                    ops.push(g_cmd(rng, &mut sh, 35));
                 }
                 if rng.chance(1, 4) {
                     ops.push("replay".into());
@@ -956,20 +615,20 @@ impl Area for StateArea {
             "C06" => {
                 let n = rng.range(2, maxlen * 2 / 3);
                 for _ in 0..n {
-                    ops.push(self.g_cmd(rng, &mut sh, 5));
+                    ops.push(g_cmd(rng, &mut sh, 5));
                 }
                 if rng.chance(1, 2) {
                     ops.push("mark".into());
                     for _ in 0..rng.range(1, 4) {
-                        ops.extend(self.g_mutation(rng, &mut sh));
+                        ops.extend(g_mutation(rng, &mut sh));
                     }
                 } else {
                     ops.push("markreset".into());
                     let addrs = sh.addrs.clone();
-                    sh = Self::new_shadow(rng);
+                    sh = new_shadow(rng);
                     sh.addrs = addrs;
                     for _ in 0..rng.range(0, maxlen * 2 / 3) {
-                        ops.push(self.g_cmd(rng, &mut sh, 5));
+                        ops.push(g_cmd(rng, &mut sh, 5));
                     }
                 }
                 ops.push("diff".into());
@@ -978,7 +637,7 @@ impl Area for StateArea {
             _ => {
                 let n = rng.range(3, maxlen + 10);
                 for i in 0..n {
-                    ops.push(self.g_cmd(rng, &mut sh, 10));
+                    ops.push(g_cmd(rng, &mut sh, 10));
                     if i > 3 && rng.chance(1, 15) {
                         ops.push("replay".into());
                     }
